@@ -257,6 +257,7 @@ type Stats struct {
 	StmtSwitches    int64
 	HotSwitches     int64
 	Parks           int64
+	MidUpdateParks  int64
 	DirectedResumes int64
 	ParkTimeouts    int64
 	Discard         bool
@@ -502,6 +503,17 @@ func (s *sim) decide(t *task, site int32) {
 		}
 		if s.parkedT == nil && int(site) < len(SiteFlags) && SiteFlags[site]&FlagHotW != 0 {
 			s.parkIn--
+			// a write right after another write of the same function is the middle of a multi-word
+			// update: such sites are four times as likely to be chosen
+			if p := t.prevSite; s.parkIn > 0 && p >= 0 && int(p) < len(SiteFlags) && SiteFlags[p]&FlagHotW != 0 && SiteFunc[p] == SiteFunc[site] {
+				s.parkIn -= 3
+				if s.parkIn < 0 {
+					s.parkIn = 0
+				}
+				if s.parkIn == 0 {
+					s.st.MidUpdateParks++
+				}
+			}
 			if s.parkIn == 0 {
 				s.drawPark()
 				var buf [maxTasks]*task
